@@ -203,7 +203,3 @@ def run(ctx: core.Ctx) -> core.Report:
     stateful.run_scenarios(ctx, rep, make, oracle, ctx.n(200, 3000), "c10")
     return rep
 
-
-def replay(ctx, data):
-    print(data)
-    return 0
